@@ -656,6 +656,8 @@ int Main(int argc, char** argv, Engine& e) {
             // benign watchdog stops (resource exhaustion inside an evaluation) do not count towards the give-up limit
             size_t hard = 0; for (auto r : crashedRuns) if (!(watchdogTag.count(r) && watchdogTag[r] == "evaluation")) ++hard;
             if (next < a.firstRun + totalRuns && NowS() - t0 < maxSecs && hard < 200) { spawn(w, next, ctl); ++live; }
+          } else if (WIFEXITED(status) && WEXITSTATUS(status) == 79) {
+            total.Add("watchdog_stop_during_determinism_recheck");   // a slow run of the re-executed sample hit the CPU watchdog: the rest of this worker's sample is skipped
           } else if (!WIFEXITED(status) || WEXITSTATUS(status) != 0) {
             fprintf(stderr, "worker %d died outside a run (status %d)\n", w, status);
           }
